@@ -81,8 +81,8 @@ def mk_node(name, comps=(), nss=(), **props):
     return s
 
 
-VALS = {'labels': [Labels(vlan='100'), Labels(vlan='200', local_name='p'), Labels(vlan='100', local_name='added-field')],
-        'capacities': [Capacities(bw=10), Capacities(bw=25, unit=1)],
+VALS = {'labels': [Labels(vlan='100'), Labels(vlan='200', local_name='p'), Labels(vlan='100', local_name='added-field'), Labels()],
+        'capacities': [Capacities(bw=10), Capacities(bw=25, unit=1), Capacities()],      # (#2, nothing set: only in base 'empties')
         'user_data': [{'k': 1}, {'k': 2, 'z': [1]}]}
 
 
@@ -111,6 +111,8 @@ def smartnic(name='c1', nsub=2):
 BASES = {
     'bare': lambda: mk_node('n1'),
     'props': lambda: mk_node('n1', labels=0, capacities=0, user_data=0),
+    # values that are present but have nothing set (e.g. what is left after subtracting a capacity from itself)
+    'empties': lambda: mk_node('n1', comps=[mk_comp('c2', ComponentType.GPU, capacities=2, labels=3)], capacities=2, labels=3),
     'gpu': lambda: mk_node('n1', comps=[mk_comp('c2', ComponentType.GPU, user_data=0)], capacities=0),
     'nic': lambda: mk_node('n1', comps=[smartnic('c1', 2)]),
     'nic0': lambda: mk_node('n1', comps=[smartnic('c1', 0), mk_comp('c2', ComponentType.GPU)]),
